@@ -227,6 +227,13 @@ calc_mean_energy_loss(ParticleTrackView const& particle,
         auto calc_energy
             = physics.make_calculator<InverseRangeCalculator>(grid_id);
         eloss = pre_step_energy - calc_energy(range - step);
+        if (eloss < zero_quantity())
+        {
+            // For a step far below the range, round-off in the inverse range
+            // lookup can put the post-step energy a few ULP above the pre-step
+            // energy: the loss is never negative
+            eloss = Energy{0};
+        }
     }
 
     return eloss;
